@@ -5,7 +5,7 @@ import random
 
 from vf.core.result import Res
 from vf.gen.ir import E, source, walk
-from vf.gen.programs import Gen, stress_program
+from vf.gen.programs import Gen, long_block_program, stress_program
 from vf.ref import mapping as rm
 from vf.progcheck import Accept, Reject, Unspec, blocks_equal, conservation, model_of, nodetap, run_ir
 
@@ -204,6 +204,11 @@ def run_shard(shard: dict) -> Res:
         check_program(res, p)
         if i < 2:
             res.sample({"family": p.get("family", "random"), "rom": p["rom"], "src": source(p["prog"])[:600]})
+    if shard["seed"] % 4 == 0:
+        # one block of many thousands of statements (own generator: the draws above are not disturbed)
+        p = long_block_program(random.Random(shard["seed"] + 0x5EED), random.Random(shard["seed"]).choice(["low", "high"]))
+        res.see("stress_families", p["family"])
+        check_program(res, p)
     t = nodetap()
     for k, v in t.hits.items():
         res.count(f"tap_hits[{k}]", v)
